@@ -414,12 +414,12 @@ def r11g(ctx):
 
 
 def run(ctx):
-    r11a(ctx)
-    r11b(ctx)
-    r11c(ctx)
-    r11d(ctx)
-    r11e(ctx)
-    r11g(ctx)
+    ctx.guard(r11a)
+    ctx.guard(r11b)
+    ctx.guard(r11c)
+    ctx.guard(r11d)
+    ctx.guard(r11e)
+    ctx.guard(r11g)
 
 
 SELFTEST = {
